@@ -9,11 +9,23 @@ import sys
 import time
 
 VERIF = os.path.dirname(os.path.dirname(os.path.abspath(__file__)))
-MODULES = ["contracts.c04_periods"]
+MODULES = ["contracts.c04_periods", "contracts.engine", "contracts.c03_requests"]
 
 CAL_THEORY = "calendar (OM/DIM opaque, lemma instances; closed forms = Hinnant days-from-civil), validated against datetime"
 
 PROPS = {
+    "C03": {
+        "theories": [CAL_THEORY, "opaque result arrays VAL(variable, period); sums compared by length and pointwise summand"],
+        "lemmas": [],
+        "validations": ["calendar", "pendulum"],
+        "assumptions": [
+            "Simulation.calculate is used through its call-site contract: it raises or returns the opaque value VAL(variable, period)",
+            "value clauses are claimed for same-family unit pairs from a request start aligned to the definition unit; "
+            "cross-family cells accepted by the unit weights (e.g. a week variable summed over a month) are asserted neither way",
+            "all dates within years 1..9999; sizes between 1 and 20000",
+        ],
+        "not_decided": ["plain request of a day/weekday variable whose value is not stored is decided on _check_period_consistency only"],
+    },
     "C04": {
         "theories": [CAL_THEORY],
         "lemmas": ["cal"],
